@@ -93,7 +93,44 @@ def showOptV : Option Float → String
   | some v => hexOf v
   | none => "missing"
 
+/-! Wave 3: sequences of REST `/run` requests on one server (`rstep` of Core/C09), simulator = the FEEDBACK family
+c (rate), f = max(0, s*c), s' = f, k = s*b + c, whose values depend on dt; settings = (c, (start, stop, dt)).
+  rbegin <b> <s0> <c0> <start> <stop> <dt> <eqs>
+  rrun none | rrun <c|-> <start|-> <stop|-> <dt|->      -> `e=t:v,t:v;…` (times and values as hex) -/
+abbrev RS := Option Float × Option Float × Option Float
+
+def fbStock (s0 dt c : Float) : Nat → Float
+  | 0 => s0
+  | k + 1 => let s := fbStock s0 dt c k
+             s + dt * (let x := s * c; if x > 0.0 then x else 0.0)
+
+def fbResult (b s0 : Float) (eqs : List Nat) (cur : Float × RS) : String :=
+  let c := cur.1
+  let start := cur.2.1.getD 0.0
+  let stop := cur.2.2.1.getD 0.0
+  let dt := cur.2.2.2.getD 1.0
+  let n := ((stop - start) / dt).round.toUInt64.toNat
+  ";".intercalate (eqs.map fun e =>
+    s!"{e}=" ++ ",".intercalate ((List.range (n + 1)).map fun k =>
+      let t := start + k.toFloat * dt
+      let s := fbStock s0 dt c k
+      let v := match e with
+        | 0 => c
+        | 1 => (let x := s * c; if x > 0.0 then x else 0.0)
+        | 2 => s
+        | _ => s * b + c
+      hexOf t ++ ":" ++ hexOf v))
+
+def fbSim (b s0 : Float) (eqs : List Nat) : RunSim Float RS String :=
+  { mergeC := fun _ x => x
+    mergeR := fun a x => (x.1 <|> a.1, x.2.1 <|> a.2.1, x.2.2 <|> a.2.2)
+    result := fun _ cur => fbResult b s0 eqs cur }      -- fresh run: the memo is transparent for this simulator
+
 structure DS where
+  rb : Float := 1.0
+  rs0 : Float := 0.0
+  reqs : List Nat := []
+  rst : RunSt Float RS := { cur := (0.0, (none, none, none)), gens := [] }
   c : Cfg
   m : Lin
   spec : Spec String
@@ -117,8 +154,26 @@ def doCall (d : DS) (cl : Call Float) : DS × String :=
 
 def stepLine (d : DS) (line : String) : DS × String :=
   match line.trimAscii.toString.splitOn " " with
-  | ["cfg", a, b, f] => ({ d with c := ⟨a == "1", b == "1", f == "1", true⟩ }, "ok")
-  | ["cfg", a, b, f, g] => ({ d with c := ⟨a == "1", b == "1", f == "1", g == "1"⟩ }, "ok")
+  | ["cfg", a, b, f] => ({ d with c := ⟨a == "1", b == "1", f == "1", true, true⟩ }, "ok")
+  | ["cfg", a, b, f, g] => ({ d with c := ⟨a == "1", b == "1", f == "1", g == "1", true⟩ }, "ok")
+  | ["cfg", a, b, f, g, r] => ({ d with c := ⟨a == "1", b == "1", f == "1", g == "1", r == "1"⟩ }, "ok")
+  | ["rbegin", b, s0, c0, start, stop, dt, eqs] =>
+      match parseHex b, parseHex s0, parseHex c0, parseHex start, parseHex stop, parseHex dt, parseNats eqs with
+      | some b, some s0, some c0, some start, some stop, some dt, some eqs =>
+          if eqs.all (· < 4) then
+            ({ d with rb := b, rs0 := s0, reqs := eqs, rst := { cur := (c0, (some start, some stop, some dt)), gens := [] } }, "ok")
+          else (d, "bad-op")
+      | _, _, _, _, _, _, _ => (d, "bad-op")
+  | ["rrun", "none"] =>
+      let r := rstep d.c (fbSim d.rb d.rs0 d.reqs) d.rst none
+      ({ d with rst := r.1 }, r.2)
+  | ["rrun", c, start, stop, dt] =>
+      match parseSet c, parseSet start, parseSet stop, parseSet dt with
+      | some c, some start, some stop, some dt =>
+          let rs : Option RS := if start.isNone && stop.isNone && dt.isNone then none else some (start, stop, dt)
+          let r := rstep d.c (fbSim d.rb d.rs0 d.reqs) d.rst (some { consts := c, rs := rs })
+          ({ d with rst := r.1 }, r.2)
+      | _, _, _, _ => (d, "bad-op")
   | ["model", a, b, s0, dt] =>
       match parseHex a, parseHex b, parseHex s0, parseHex dt with
       | some a, some b, some s0, some dt => ({ d with m := ⟨a, b, s0, dt, 0⟩ }, "ok")
@@ -176,5 +231,5 @@ partial def loop (h : IO.FS.Stream) (d : DS) : IO Unit := do
   loop h d'
 
 def main : IO Unit := do
-  loop (← IO.getStdin) { c := ⟨true, true, true, true⟩, m := ⟨1.0, 1.0, 0.0, 1.0, 0⟩, spec := mkSpec 0 1 [], eqs := [],
+  loop (← IO.getStdin) { c := ⟨true, true, true, true, true⟩, m := ⟨1.0, 1.0, 0.0, 1.0, 0⟩, spec := mkSpec 0 1 [], eqs := [],
                          lazy := false, st := begin 0.0 }
